@@ -245,14 +245,17 @@ def MK(kind, *args, **kwargs):
     return getattr(icontract, kind)(*args, **kwargs)
 
 def foreign(tag):
+    # (a tag ending in "~": the wrapper exposes __wrapped__ but does not copy the __dict__ of what it wraps - the attributes of a
+    # checker below it are then not visible on it)
+    updated = () if tag.endswith("~") else functools.WRAPPER_UPDATES
     def deco(func):
         if hasattr(func, "__call__") and __import__("inspect").iscoroutinefunction(func):
-            @functools.wraps(func)
+            @functools.wraps(func, updated=updated)
             async def awrapper(*args, **kwargs):
                 HUB.log("foreign", tag, None, (args, kwargs))
                 return await func(*args, **kwargs)
             return awrapper
-        @functools.wraps(func)
+        @functools.wraps(func, updated=updated)
         def wrapper(*args, **kwargs):
             HUB.log("foreign", tag, None, (args, kwargs))
             return func(*args, **kwargs)
